@@ -105,7 +105,9 @@ def run(ctx):
     sre = ctx.body(STREAM_READ_EXACT)
     n_ok = 0
     for path in enum_paths(sre):
-        st = run_path(sre, path)
+        st = run_path(sre, path, P)
+        if not st.feasible:
+            continue
         rk = ret_kind(st.env.get(0))
         if rk != 'ok':
             continue
@@ -124,7 +126,9 @@ def run(ctx):
     lr = ctx.body(LINK_READ)
     n_sized = n_unsized = 0
     for path in enum_paths(lr):
-        st = run_path(lr, path)
+        st = run_path(lr, path, P)
+        if not st.feasible:
+            continue
         if ret_kind(st.env.get(0)) != 'ok':
             continue
         unsized = path_calls(st, STREAM_READ)
@@ -202,7 +206,9 @@ def run(ctx):
     n_guard_err = 0
     kinds = set()
     for path in enum_paths(rd):
-        st = run_path(rd, path)
+        st = run_path(rd, path, P)
+        if not st.feasible:
+            continue
         rk = ret_kind(st.env.get(0))
         reads = path_calls(st, [LINK_READ, READ_PAYLOAD])
         consts = []
@@ -267,7 +273,9 @@ def run(ctx):
     accept = {'Raw': set(), 'FastPath': set()}
     n_disp = 0
     for path in enum_paths(rd):
-        st = run_path(rd, path)
+        st = run_path(rd, path, P)
+        if not st.feasible:
+            continue
         if ret_kind(st.env.get(0)) != 'ok':
             continue
         okv = strip(st.env.get(0))
